@@ -16,6 +16,8 @@ Rendered into `namespace Fc.Gen.C16`:
   structuredCellTypes rectilinearCellTypes imageCellTypes : List String
 """
 from __future__ import annotations
+
+PROPERTIES = ['C03', 'C16']   # properties whose proofs depend on these declarations
 import ast
 from fractions import Fraction
 
